@@ -80,6 +80,15 @@ template<class C> struct Drv
     long r = 0;
     for(It i = c.begin(); i != c.end() && i != it; ++i) ++r;
     printf("@%ld:%d:%d:%ld", r, it.key().k, *it, tab_get(it.item));
+    // the const overloads of ++ / -- (return a new Iterator) must agree with the in-place ones
+    const It cit = it;
+    It a = it, b = it;
+    ++a; --b;
+    It na = ++cit, nb = --cit;
+    if(na != a) printf("!const-inc");
+    if(nb != b) printf("!const-dec");
+    const It& kit = it;
+    if(kit.key().k != it.item->key.k || *kit != it.item->value || &*kit != kit.operator->()) printf("!const-deref");
   }
 
   static void unmap_all(C& c) { for(It i = c.begin(); i != c.end(); ++i) tab_del(i.item); }
@@ -111,10 +120,8 @@ template<class C> struct Drv
     preorder(it->right, first, h);
   }
 
-  static void state_out(C& c)
+  static void iter_out(C& c)
   {
-    printf(" | %lu %d ", (unsigned long)c.size(), c.isEmpty() ? 1 : 0);
-    // public iteration
     if(g_hash) {
       long long h = 7;
       for(It i = c.begin(); i != c.end(); ++i) h = hstep(hstep(hstep(h, i.key().k), *i), tab_get(i.item));
@@ -127,8 +134,10 @@ template<class C> struct Drv
       }
       if(first) putchar('-');
     }
-    // internals
-    printf(" | ");
+  }
+
+  static void intern_out(C& c)
+  {
     bool first = true; long long h = 7;
     preorder(c.root, first, h);
     if(g_hash) printf("#%lld", h);
@@ -148,14 +157,25 @@ template<class C> struct Drv
     }
     free(arr);
     if(bad) printf(" %s", bad);
+  }
+
+  // `other` != 0: an operation that reads the other container - its public and internal state is dumped too
+  static void state_out(C& c, C* other)
+  {
+    if(other) { printf(" o=%lu ", (unsigned long)other->size()); iter_out(*other); }
+    printf(" | %lu %d ", (unsigned long)c.size(), c.isEmpty() ? 1 : 0);
+    iter_out(c);
+    printf(" | ");
+    intern_out(c);
+    if(other) { printf(" / "); intern_out(*other); }
     putchar('\n');
   }
 
   static void op(C* cs[2], vh::Tok& t)
   {
     C& c = *cs[g_cur];
-    C& o = *cs[1 - g_cur];
     const char* name = t.v[0];
+    bool two = false;
     if(!strcmp(name, "ins") || !strcmp(name, "hint") || !strcmp(name, "hintc")) {
       usize before = c.size();
       It it;
@@ -178,7 +198,7 @@ template<class C> struct Drv
       else { tab_del(c.begin().item); It r = c.removeFront(); put_iter(c, r); }
     } else if(!strcmp(name, "remb")) {
       if(c.isEmpty()) putchar('-');
-      else { It last = c.end(); --last; tab_del(last.item); It r = c.removeBack(); put_iter(c, r); }
+      else { const It e = c.end(); It last = --e; tab_del(last.item); It r = c.removeBack(); put_iter(c, r); }
     } else if(!strcmp(name, "clear")) {
       unmap_all(c); c.clear(); putchar('-');
     } else if(!strcmp(name, "find")) {
@@ -192,40 +212,52 @@ template<class C> struct Drv
     } else if(!strcmp(name, "count")) {
       printf("%lu", (unsigned long)count(c, CountKey(atoi(t.v[1]))));
     } else if(!strcmp(name, "front")) {
-      if(c.isEmpty()) printf("v=-"); else printf("v=%d", c.front());
+      const C& k = c;   // front() / back() have a const and a non-const overload
+      if(c.isEmpty()) printf("v=-"); else { printf("v=%d", c.front()); if(&k.front() != &c.front() || k.front() != *c.begin()) printf("!const-front"); }
     } else if(!strcmp(name, "back")) {
-      if(c.isEmpty()) printf("v=-"); else printf("v=%d", c.back());
+      const C& k = c;
+      if(c.isEmpty()) printf("v=-"); else { printf("v=%d", c.back()); if(&k.back() != &c.back()) printf("!const-back"); }
     } else if(!strcmp(name, "sel")) {
       g_cur = atoi(t.v[1]) ? 1 : 0; putchar('-');
-    } else if(!strcmp(name, "copy") || !strcmp(name, "copyc") || !strcmp(name, "bulk")) {
-      copy_ops(cs, name); putchar('-');
+    } else if(!strcmp(name, "copy") || !strcmp(name, "copyc") || !strcmp(name, "copys")) {
+      copy_ops(cs, name); putchar('-'); two = true;
+    } else if(!strcmp(name, "bulk")) {
+      bulk_op(cs); putchar('-'); two = true;
     } else {
       printf("?unknown-op");
     }
-    state_out(*cs[g_cur]);
+    state_out(*cs[g_cur], two ? cs[1 - g_cur] : 0);
   }
 
   static usize count(M& c, const CountKey& k) { return c.contains(k) ? 1 : 0; }   // Map has no count()
   static usize count(MM& c, const CountKey& k) { return c.count(k); }
 
-  static void copy_ops(MM* cs[2], const char*) {}   // MultiMap has neither copy operations nor insert(other)
-  static void copy_ops(M* cs[2], const char* name)
+  // copy = operator=, copyc = copy construction, copys = self-assignment; Map and MultiMap alike
+  static void copy_ops(C* cs[2], const char* name)
   {
-    M& o = *cs[1 - g_cur];
-    if(!strcmp(name, "bulk")) {
-      M& c = *cs[g_cur];
-      c.insert(o);
-      for(M::Iterator i = o.begin(); i != o.end(); ++i) {   // new Items were created in source order
-        M::Iterator j = c.find(i.key());
-        if(j != c.end() && tab_get(j.item) < 0) tab_put(j.item, next_slot++);
-      }
+    if(!strcmp(name, "copys")) {            // nothing may change, so the slots stay as they are
+      C& self = *cs[g_cur];
+      *cs[g_cur] = self;
       return;
     }
+    const C& o = *cs[1 - g_cur];
     unmap_all(*cs[g_cur]);
     if(!strcmp(name, "copy")) *cs[g_cur] = o;
-    else { delete cs[g_cur]; cs[g_cur] = new M(o); }
+    else { delete cs[g_cur]; cs[g_cur] = new C(o); }
+    C& c = *cs[g_cur];
+    for(It i = c.begin(); i != c.end(); ++i) tab_put(i.item, next_slot++);   // all Items are new
+  }
+
+  static void bulk_op(MM* cs[2]) {}   // MultiMap has no insert(other)
+  static void bulk_op(M* cs[2])
+  {
+    M& o = *cs[1 - g_cur];
     M& c = *cs[g_cur];
-    for(M::Iterator i = c.begin(); i != c.end(); ++i) tab_put(i.item, next_slot++);
+    c.insert(o);
+    for(M::Iterator i = o.begin(); i != o.end(); ++i) {   // new Items were created in source order
+      M::Iterator j = c.find(i.key());
+      if(j != c.end() && tab_get(j.item) < 0) tab_put(j.item, next_slot++);
+    }
   }
 };
 
